@@ -42,7 +42,8 @@ class C09(MonitorCheck):
                    'results for which the reference relation is undetermined (projection at top '
                    'level, unknown class) are counted, not judged']
     PROBES = ('find_subtypes', 'find_supertypes', 'find_irrelevant_type', 'irrelevant_none',
-              'parameterized_query', 'tvar_query', 'postrun_searches')
+              'parameterized_query', 'tvar_query', 'postrun_searches',
+              'nested_small_pool_queries')
     ROUNDS = (0, 1, 1)
     tiers = {'quick': {'runs': 260, 'wall_s': 70, 'run_timeout_s': 200},
              'thorough': {'runs': 4000, 'wall_s': 1100, 'run_timeout_s': 900}}
@@ -95,6 +96,51 @@ class C09(MonitorCheck):
                         pass
                     npost += 1
                     if npost >= 25:
+                        break
+            # small-pool probe for NESTED generic queries C<..D<..>..>: the irrelevant-type
+            # search rebuilds such a type argument by argument from random candidates, and the
+            # chance that it reassembles the very type it must avoid is ~1e-5 with the
+            # program's whole pool but ~1e-2 with a pool of a handful of types.  Pools are made
+            # of the constructors and leaves of the query itself plus two other program types;
+            # all objects come from the final class table.
+            if types is not None:
+                decls = {d.name: d for d in class_decls(run.program)}
+                simple = [d.get_type() for d in decls.values() if not d.type_parameters][:6]
+                nq = 0
+                seen2 = set()
+                for node, attr, root, part, ppath in walk.iter_type_occurrences(run.program):
+                    if not isinstance(part, tp.ParameterizedType) or part.name not in decls:
+                        continue
+                    inner = [a for a in part.type_args
+                             if isinstance(a, tp.ParameterizedType) and a.name in decls]
+                    if not inner:
+                        continue
+                    s = tsnap(part)
+                    if s in seen2 or refrel.has_tvars(s) or refrel.has_wild(s):
+                        continue
+                    seen2.add(s)
+                    pool = [decls[part.name].get_type()]
+                    for a in inner:
+                        pool.append(decls[a.name].get_type())
+                        pool.extend(x for x in a.type_args
+                                    if isinstance(x, (tp.SimpleClassifier, tp.Builtin)))
+                    pool.extend(x for x in part.type_args
+                                if isinstance(x, (tp.SimpleClassifier, tp.Builtin)))
+                    pool.extend(simple[:2])
+                    uniq = []
+                    for x in pool:
+                        if not any(x is y or tsnap(x) == tsnap(y) for y in uniq):
+                            uniq.append(x)
+                    for _ in range(40):
+                        try:
+                            tu.find_irrelevant_type(part, list(uniq), run.program.bt_factory)
+                        except Exception:   # noqa
+                            break
+                        npost += 1
+                    probes['nested_small_pool_queries'] = probes.get(
+                        'nested_small_pool_queries', 0) + 1
+                    nq += 1
+                    if nq >= 4:
                         break
         monitors.Recorder.current = None
         probes['postrun_searches'] = npost
@@ -189,6 +235,15 @@ class C09(MonitorCheck):
                 if qq is None or tb.is_top(qq):
                     continue
                 obl['irrelevant-unrelated'] += 1
+                if refrel.strip(r) == refrel.strip(qq) and r[0] == 'P':
+                    # the query itself (or the bound of the queried variable) handed back
+                    sig = 'irrelevant-is-the-query|%s|%s' % (name, shape(qq, 1))
+                    if sig not in v:
+                        v[sig] = {'rule': 'irrelevant-is-the-query', 'sig': sig,
+                                  'detail': 'find_irrelevant_type(%s) returned %s, i.e. the type '
+                                            'it was asked to avoid (called from %s) [lang=%s]' % (
+                                                tstr(q), tstr(r), caller, lang)}
+                    continue
                 a, b = refrel.sub3(r, qq, tb), refrel.sub3(qq, r, tb)
                 if a is None or b is None:
                     obl['undetermined'] += 1
